@@ -188,8 +188,10 @@ func runC14(env *Env, rc *RunCtx) {
 		}
 	}
 	// the very same request twice: the two need the same storage calls at the same time
+	dupOrig := -1
 	if len(specs) > 0 && t.Bool(1, 2) {
-		d := specs[t.Choose(len(specs))]
+		dupOrig = t.Choose(len(specs))
+		d := specs[dupOrig]
 		specs = append(specs, spec{d.kind, d.desc + " (duplicate)", d.mk})
 		rc.Count("probe_duplicate_requests", 1)
 	}
@@ -231,13 +233,32 @@ func runC14(env *Env, rc *RunCtx) {
 			continue
 		}
 		et := rc.ExecTape(e)
-		var reqs []*Request
-		for _, s := range specs {
-			reqs = append(reqs, s.mk())
-		}
 		plan := NoFaults()
 		if et.Bool(1, 2) {
 			plan = WithStragglers()
+		}
+		// In a third of the executions one client goes away: the request in front is
+		// cancelled at a tape-chosen instant (often one that has an identical twin
+		// in flight). The others must not notice.
+		order := make([]int, len(specs))
+		for i := range order {
+			order[i] = i
+		}
+		cancelled := false
+		if et.Bool(1, 3) {
+			cancelled = true
+			if dupOrig > 0 && et.Bool(3, 4) {
+				order[0], order[dupOrig] = order[dupOrig], order[0]
+			}
+			plan.CancelAfter = []int{0, 1, 1, 2, 3, 5}[et.Choose(6)]
+			rc.Count("probe_one_request_cancelled", 1)
+			if dupOrig >= 0 && order[0] == dupOrig {
+				rc.Count("probe_cancelled_request_has_twin", 1)
+			}
+		}
+		var reqs []*Request
+		for _, i := range order {
+			reqs = append(reqs, specs[i].mk())
 		}
 		// in half of the executions the requests do not all arrive at once
 		if et.Bool(1, 2) {
@@ -256,8 +277,12 @@ func runC14(env *Env, rc *RunCtx) {
 		w := func(extra map[string]any) map[string]any {
 			d := c.Describe()
 			var rs []string
-			for i, s := range specs {
-				rs = append(rs, fmt.Sprintf("r%d: %s", i, s.desc))
+			for pos, i := range order {
+				c := ""
+				if cancelled && pos == 0 {
+					c = " (cancelled by its client)"
+				}
+				rs = append(rs, fmt.Sprintf("r%d: %s%s", pos, specs[i].desc, c))
 			}
 			d["requests"] = rs
 			d["schedule"] = r.Trace
@@ -274,9 +299,13 @@ func runC14(env *Env, rc *RunCtx) {
 			rc.Violate("no-result", "concurrent", "concurrent requests did not all return", w(nil), e, et)
 			return
 		}
-		for i, rq := range reqs {
+		for pos, rq := range reqs {
+			i := order[pos]
+			if cancelled && pos == 0 {
+				continue // an error or the answer it already had: C15's business
+			}
 			if got := sig(rq); got != alone[i] {
-				rc.Violate("interference", specs[i].kind, fmt.Sprintf("request r%d (%s) returned %q when run concurrently and %q when run alone", i, specs[i].desc, got, alone[i]), w(nil), e, et)
+				rc.Violate("interference", specs[i].kind, fmt.Sprintf("request r%d (%s) returned %q when run concurrently and %q when run alone", pos, specs[i].desc, got, alone[i]), w(nil), e, et)
 				return
 			}
 		}
